@@ -10,6 +10,10 @@ OPT_NOTE = ("Trusted: Coq 8.16.1 kernel (vm_compute, no native_compute); extract
             "bit-identical parameter vectors at every State::score() call and return the same state).")
 
 ENGINES = [
+    {"name": "cli", "path": "bin/eng_cli.py + harness/src/pipe.rs + coq/model/Pipeline.v",
+     "serves_properties": ["C09", "C10", "C11", "C20"],
+     "kind_free_text": "the built packing binary (thread counts, replications, argument grid) against a replica-by-replica replay of "
+                       "the library path in the harness; written files read back"},
     {"name": "geom", "path": "harness/src/geom.rs + harness/src/geomgen.rs + ocaml/engine_geom.ml + bin/eng_geom.py + coq/model/Geom.v",
      "serves_properties": ["C01", "C02", "C03", "C04", "C12", "C13", "C14", "C15"],
      "kind_free_text": "correspondence of the extracted geometry model with the implementation on injected states and placed pairs; "
@@ -40,6 +44,37 @@ GEOM_NOTE = ("Trusted: Coq kernel; extraction + float64 shim; harness/driver tra
              "cos/sin of the angles are values supplied by libm (premises).")
 
 CLAIMS = {
+    "C09": dict(
+        engine="cli", design_ref="DESIGN.md section 4 C09",
+        technique="Coq: footprint/frame theorem by induction over the run + associativity of max over a total preorder; determinism is definitional in the model and tied to the code by bit-exact replay in rayon pools and across processes (partial)",
+        text="Theorems: a run writes only the parameter cells its handles point to, so optimising a clone (fresh cells) leaves the "
+             "original and every other replica untouched (any number of steps, any oracle); std::cmp::max is associative on a total "
+             "preorder and every reduction tree over the index-ordered results returns the sequential result.  The optimiser model "
+             "is a function of configuration, random stream and state; the code is replayed bit-for-bit against it, replicas are "
+             "re-run inside rayon pools of 1,3,8 (thorough: 1..16) threads in reversed order and compared with the sequential run, "
+             "and the binary's output files are compared byte-for-byte across thread counts and processes.",
+        note=OPT_NOTE + "  Memory-model aspects (data races, unsafe impl Sync), rayon's scheduler and OS effects cannot be exhibited by "
+             "a Gallina model: the theorem assumes Rust ownership (each replica owns its clone)."),
+    "C10": dict(
+        engine="cli", design_ref="DESIGN.md section 4 C10",
+        technique="Coq proofs about max over a total preorder (best element, prefix monotonicity, error iff no replicas) + vm_compute over regenerated labels + binary vs library replay",
+        text="Theorems: the value analyse_state returns is one of the replica results and no replica scores higher; adding a replica "
+             "never lowers it; the error outcome occurs iff there are no replicas; each group's label is the name it is requested by "
+             "and its family that of the specification (regenerated tables).  The binary is run for replications 1..k: logged score = "
+             "score of the written JSON = best replica score of the library replay, prefix-monotone, labels/family/shape/copies.",
+        note="Trusted: Coq kernel; regeneration (dump + gen.py); the harness's replay of analyse_state (a re-statement of main.rs "
+             "lines 96-133, compared with the binary's output on every case); structopt/env_logger text output."),
+    "C11": dict(
+        engine="geom", design_ref="DESIGN.md section 4 C11",
+        technique="Coq: round-trip theorem for the tree-level codec (induction over the lists), schema tied to serde output by regeneration; SVG matrix semantics by ring; text layer tested (partial)",
+        text="Theorems: decode (encode s) = Some s for every state of the tree-level model (all fields, every entry of every symmetry "
+             "matrix, opaque shape subtree), hence identical re-serialisation; the model's key tree equals the key tree serde emits "
+             "for all 7 groups x 5 state kinds (regenerated); an SVG renderer applying the printed matrix(a b c d e f) places every "
+             "point where the structure does, the six numbers are printed in the order probed from the code, and the <use> list is "
+             "per placement the Cartesian placement followed by its 8 neighbour translates.  Monitors: from_str(to_string(s)) has "
+             "bit-identical score and placements and identical text, for generated states incl. subnormal/boundary values; the SVG "
+             "text is parsed and compared; files written by the binary over existing longer files are read back.",
+        note=GEOM_NOTE + "  serde_json/ryu number printing and parsing, and the svg crate's writer, are external code: tested, not proved."),
     "C08": dict(
         engine="opt", design_ref="DESIGN.md section 4 C08",
         technique="handle data regenerated from the running code + vm_compute; Coq induction over the run for the range invariant (binary64 and reals) + bit-exact replay on real states + monitors on chains of stages",
@@ -201,5 +236,4 @@ CLAIMS = {
 }
 
 _NOT_YET = "not claimed yet: the model/theorems/engine for this property are still being built (see DESIGN.md section 7)"
-NOT_APPLICABLE = {p: _NOT_YET for p in
-                  ["C09", "C10", "C11"]}
+NOT_APPLICABLE = {}
